@@ -202,6 +202,11 @@ def build(job, scratch):
         if rc != 0:
             raise ToolError("goto-instrument --apply-loop-contracts failed:\n" + out[-2500:])
         cur = "d.gb"
+    if job.get("apply_inline_loop_contracts"):
+        rc, out, _ = run(["goto-instrument", "--apply-loop-contracts", cur, "d.gb"], scratch, 600, log=os.path.join(scratch, "lc.log"))
+        if rc != 0:
+            raise ToolError("goto-instrument --apply-loop-contracts failed:\n" + out[-2500:])
+        cur = "d.gb"
     if job.get("enforce") or job.get("replace"):
         cmd = ["goto-instrument"]
         for f in job.get("enforce", []):
